@@ -342,7 +342,7 @@ func evalCase(cs Case) (class, msg string) {
 // evalManagedSeq: seed {GET /a, /a/b, /a/c} (a node with children); the Updates function performs an
 // ordered sequence of distinct writes and then panics; afterwards every seed route must still be
 // served by its original handler, nothing else must be registered and a new write must complete.
-var managedSteps = []string{"Update /a", "Update /a/b", "Update /a/c", "Handle /a/d", "Delete /a/c", "Handle /a/{x}"}
+var managedSteps = []string{"Update /a", "Update /a/b", "Update /a/c", "Handle /a/d", "Delete /a/c", "Handle /a/{x}", "Truncate GET", "Truncate GET,POST", "Truncate"}
 
 func evalManagedSeq(seq []int) (string, string) {
 	f, _ := fox.New()
@@ -368,6 +368,12 @@ func evalManagedSeq(seq []int) (string, string) {
 					t.Handle("GET", parts[1], fx.VerHandler(2), fx.WithVer(2))
 				case "Delete":
 					t.Delete("GET", parts[1])
+				case "Truncate":
+					if len(parts) == 1 {
+						t.Truncate()
+					} else {
+						t.Truncate(strings.Split(parts[1], ",")...)
+					}
 				}
 			}
 			panic(boom{})
@@ -486,7 +492,7 @@ func run(c *mc.Ctx, r *mc.Result) {
 			hs = append(hs, h)
 		}
 	}
-	r.Bounds["space"] = fmt.Sprintf("%d panic values x 5 response progress states x 9 panic sites (5 handler kinds + a middleware constructor panicking during Router.Handle / Router.Update / Txn.Handle in Updates / NewRoute issued by a handler) x %d request header spellings (6 sensitive names, each canonical / as documented / lower / upper / mixed, + none); Updates and View panicking after every prefix of a 3-operation body; Updates panicking after every ordered sequence of <=3 distinct writes over 6 on a node with children", len(pvs), len(hs))
+	r.Bounds["space"] = fmt.Sprintf("%d panic values x 5 response progress states x 9 panic sites (5 handler kinds + a middleware constructor panicking during Router.Handle / Router.Update / Txn.Handle in Updates / NewRoute issued by a handler) x %d request header spellings (6 sensitive names, each canonical / as documented / lower / upper / mixed, + none); Updates and View panicking after every prefix of a 3-operation body; Updates panicking after every ordered sequence of <=3 distinct writes over 9 (incl. Truncate) on a node with children", len(pvs), len(hs))
 	idx := 0
 	for vi := range pvs {
 		for prog := 0; prog < nProgs; prog++ {
